@@ -72,7 +72,7 @@ func init() {
 		checkProtoVersion dialer getGRPCMuxer loadServerCert logStderr reattach
 		getClientStream getServerStream knock listenForKnocks timeoutWait
 		acceptSession session getStream done closeBroker trackListener killed
-		newMuxBroker hostEnviron
+		newMuxBroker hostEnviron knockExpiry
 	`) {
 		normAnchors[n] = true
 	}
@@ -814,6 +814,59 @@ func renameIdent(n ast.Node, from, to string) {
 	})
 }
 
+// declaredIn: every name a function declares anywhere in its text (receiver, parameters, results, := and var /
+// const / type declarations, range and type-switch variables, parameters of literals inside it).
+func declaredIn(recv *ast.FieldList, ft *ast.FuncType, body ast.Node) map[string]bool {
+	out := map[string]bool{}
+	fields := func(fl *ast.FieldList) {
+		if fl == nil {
+			return
+		}
+		for _, f := range fl.List {
+			for _, id := range f.Names {
+				out[id.Name] = true
+			}
+		}
+	}
+	lhs := func(es ...ast.Expr) {
+		for _, e := range es {
+			if id, ok := e.(*ast.Ident); ok {
+				out[id.Name] = true
+			}
+		}
+	}
+	fields(recv)
+	if ft != nil {
+		fields(ft.Params)
+		fields(ft.Results)
+	}
+	ast.Inspect(body, func(n ast.Node) bool {
+		switch x := n.(type) {
+		case *ast.FuncLit:
+			fields(x.Type.Params)
+			fields(x.Type.Results)
+		case *ast.AssignStmt:
+			if x.Tok == token.DEFINE {
+				lhs(x.Lhs...)
+			}
+		case *ast.RangeStmt:
+			if x.Tok == token.DEFINE {
+				lhs(x.Key, x.Value)
+			}
+		case *ast.ValueSpec:
+			for _, id := range x.Names {
+				out[id.Name] = true
+			}
+		case *ast.TypeSpec:
+			out[x.Name.Name] = true
+		case *ast.LabeledStmt:
+			out[x.Label.Name] = true
+		}
+		return true
+	})
+	return out
+}
+
 // topDeclared: names declared by the top-level statements of a body (they would land in the caller's scope).
 func topDeclared(list []ast.Stmt) map[string]bool {
 	out := map[string]bool{}
@@ -1069,6 +1122,29 @@ func inlineAt(files map[string]*ast.File, d normDecl, site *callSite, types, ref
 	sh := shapeOf(fd.Body)
 	callerNames := identsIn(site.outer)
 	bodyNames := identsIn(fd.Body)
+	// hygiene: a name the helper takes from the package level (a function, variable, type, imported package —
+	// also in its parameter types) must not be a local name of the caller, where it would mean something else
+	{
+		own := declaredIn(fd.Recv, fd.Type, fd.Body)
+		callerLocals := declaredIn(site.outer.Recv, site.outer.Type, site.outer.Body)
+		free := map[string]bool{}
+		for n := range bodyNames {
+			free[n] = true
+		}
+		for n := range identsIn(fd.Type) {
+			free[n] = true
+		}
+		if fd.Recv != nil {
+			for n := range identsIn(fd.Recv.List[0].Type) {
+				free[n] = true
+			}
+		}
+		for n := range free {
+			if !own[n] && callerLocals[n] && n != "_" {
+				return ""
+			}
+		}
+	}
 
 	var all []*binding
 	if recv != nil {
